@@ -11,7 +11,7 @@ fn same_des_key(a: u64, b: u64) -> bool {
     (a & rd::PARITY_MASK) == (b & rd::PARITY_MASK)
 }
 
-//@ harness name=des_weak_exact tier=quick bits=64 est=15 desc="Des::weak_key_test(k) fails <=> k equals one of the 64 NIST keys modulo the parity bits; all 2^64 keys"
+//@ harness name=des_weak_exact tier=quick bits=64 est=10 desc="Des::weak_key_test(k) fails <=> k equals one of the 64 NIST keys modulo the parity bits; all 2^64 keys"
 verif_harness! {
     name: des_weak_exact,
     bytes: 8,
@@ -38,7 +38,7 @@ fn tdes_expect(k: &[u8], parts: usize) -> bool {
     weak
 }
 
-//@ harness name=tdes_ede3_weak_exact prop=C13 tier=quick bits=192 est=30 desc="TdesEde3::weak_key_test fails <=> some 8-byte part is a NIST key (mod parity) or two parts are the same DES key (mod parity); all 2^192 keys"
+//@ harness name=tdes_ede3_weak_exact prop=C13 tier=quick bits=192 est=25 desc="TdesEde3::weak_key_test fails <=> some 8-byte part is a NIST key (mod parity) or two parts are the same DES key (mod parity); all 2^192 keys"
 verif_harness! {
     name: tdes_ede3_weak_exact,
     bytes: 24,
@@ -48,7 +48,7 @@ verif_harness! {
         Some(<TdesEde3 as KeyInit>::weak_key_test(&key.into()).is_err() == tdes_expect(&key, 3))
     }
 }
-//@ harness name=tdes_eee3_weak_exact prop=C13 tier=quick bits=192 est=30 desc="TdesEee3::weak_key_test: same predicate as Ede3; all 2^192 keys"
+//@ harness name=tdes_eee3_weak_exact prop=C13 tier=quick bits=192 est=25 desc="TdesEee3::weak_key_test: same predicate as Ede3; all 2^192 keys"
 verif_harness! {
     name: tdes_eee3_weak_exact,
     bytes: 24,
@@ -92,7 +92,7 @@ fn state_eq<T>(a: &T, b: &T) -> bool {
     }
     true
 }
-//@ harness name=des_new_checked prop=C13 tier=quick bits=64 est=50 desc="Des::new_checked(k) is Err <=> weak_key_test(k) is Err, and on Ok its subkeys equal Des::new(k)'s; all 2^64 keys"
+//@ harness name=des_new_checked prop=C13 tier=quick bits=64 est=45 desc="Des::new_checked(k) is Err <=> weak_key_test(k) is Err, and on Ok its subkeys equal Des::new(k)'s; all 2^64 keys"
 verif_harness! {
     name: des_new_checked,
     bytes: 8,
